@@ -308,7 +308,7 @@ def splice_fn(text, spec=None, ret=None, loops=None, before=None, after=None, re
     # 1) textual rewrites (declared rules only)
     for rule, frm, to in (rewrites or []):
         text, cnt = apply_rewrite(text, frm, to)
-        if cnt == 0:
+        if cnt == 0 and not rule.endswith("?"):     # `R3?`: optional (deleting a statement that is not there is a no-op)
             raise Undecided(f"rewrite {rule} `{frm}` no longer applies in {sel}")
         log.append({"rule": rule, "item": sel, "from": frm, "to": to, "count": cnt})
     # 1b) R8: byte-string literals b"..." -> &[b0, b1, ..] (Verus gives byte-string literals no view); same bytes, computed here
@@ -605,7 +605,7 @@ def compose(template_text, repo_root, read_file):
                 new_text = item_text
                 for rule, frm, to in rew:
                     new_text, cnt = apply_rewrite(new_text, frm, to)
-                    if cnt == 0:
+                    if cnt == 0 and not rule.endswith("?"):
                         raise Undecided(f"rewrite {rule} `{frm}` no longer applies in {args['sel']}")
                     rewrites_log.append({"rule": rule, "item": args["sel"], "from": frm, "to": to, "count": cnt})
             lo = len(out_lines) + 1
